@@ -4,6 +4,7 @@ import AtreeModel.Replay.Storage
 import AtreeModel.Replay.Health
 import AtreeModel.Replay.Map
 import AtreeModel.Replay.World
+import AtreeModel.Replay.Settings
 /-
   atree_model: replays a trace (stdin) on the Lean model and compares every line the
   implementation produced with the model's own rendering.
@@ -60,6 +61,12 @@ partial def loopWorld (h : IO.FS.Stream) (s : WState) (n : Nat) : IO WState := d
   let line := (line.dropRightWhile (fun c => c == '\n' || c == '\r'))
   loopWorld h (s.stepLine line n) (n + 1)
 
+partial def loopSettings (h : IO.FS.Stream) (s : SetState) (n : Nat) : IO SetState := do
+  let line ← h.getLine
+  if line.isEmpty then return s
+  let line := (line.dropRightWhile (fun c => c == '\n' || c == '\r'))
+  loopSettings h (s.stepLine line n) (n + 1)
+
 def main (args : List String) : IO UInt32 := do
   let stdin ← IO.getStdin
   match args with
@@ -83,11 +90,15 @@ def main (args : List String) : IO UInt32 := do
     let s := if s.pending.isEmpty then s else s.note s!"end of trace: model expected further lines: {s.pending}"
     IO.println ("RESULT " ++ reportJson "world" s.rep)
     return (if s.rep.nMismatch == 0 then 0 else 1)
+  | ["settings"] =>
+    let s ← loopSettings stdin {} 1
+    IO.println ("RESULT " ++ reportJson "settings" s.rep)
+    return (if s.rep.nMismatch == 0 then 0 else 1)
   | ["health"] =>
     let s ← loopHealth stdin {} 1
     let s := if s.pending.isEmpty then s else s.note s!"end of trace: model expected further lines: {s.pending}"
     IO.println ("RESULT " ++ reportJson "health" s.rep)
     return (if s.rep.nMismatch == 0 then 0 else 1)
   | _ =>
-    IO.eprintln "usage: atree_model <array|storage|health|map|world> < trace"
+    IO.eprintln "usage: atree_model <array|storage|health|map|world|settings> < trace"
     return 2
